@@ -8,11 +8,17 @@
 (*               parameter sets in force before every key picture and every in-band set before   *)
 (*               the picture it was sent with, TsTime (one constant per track and consumer,      *)
 (*               mod 2^33), Adts, RtpTime (one tick), completeness at the end of the stream and  *)
-(*               a timely start of the consumers that are attached from the beginning.           *)
+(*               a timely start of the consumers that are attached from the beginning (also of a *)
+(*               stream that ends while lal still probes it).  C02 for the RTSP subscribers of   *)
+(*               the Group (gate): SdpCur (described with the video sequence header in force at  *)
+(*               that moment), KeyFirst, RtspStartsInTime (after PLAY: the next key frame, or    *)
+(*               the next audio frame when described without video).                             *)
 (*   Reference - RmPush / RmFlushAudio / FeedTs: lal's Rtmp2MpegtsRemuxer (probe queue,          *)
 (*               parameter set cache, AUD / parameter-set insertion, audio batching and flush    *)
 (*               rules, `opened`, boundary rule, per-track time base) and the HTTP-TS fan-out of *)
 (*               logic.Group (fresh / wait-boundary / GOP cache) as a deterministic machine;     *)
+(*               RrStep: remux.Rtmp2RtspRemuxer (analyse stage, description, re-description) and *)
+(*               Group.feedRtpPacket (key-frame gate of playing subscribers);                    *)
 (*               TLC checks that it satisfies the acceptor for every enumerated behaviour and    *)
 (*               emits the behaviours that are replayed against the real code.  Trace validation *)
 (*               uses the acceptor only: the code may batch or flush differently (the HLS muxer  *)
@@ -206,21 +212,23 @@ EndOk(h, c) ==
     /\ IF c.vcur > 0 THEN c.vcur = Len(h.pubV) ELSE \A j \in 1..Len(h.pubV) : h.pubV[j].step <= c.start
     /\ TsAudio => IF c.acur > 0 THEN c.acur = Len(h.pubA) ELSE \A j \in 1..Len(h.pubA) : h.pubA[j].step <= c.start
 
-(* a consumer that is attached before the first message starts no later than the first key frame   *)
-(* (or, for a stream without video, the first audio frame), provided the stream got past lal's     *)
-(* probe stage (both tracks seen or ProbeMax messages) - otherwise "delivered nothing" would pass   *)
+(* a consumer that is attached before the first message has started, once the stream is over, no   *)
+(* later than the first key frame (or, for a stream without video, the first audio frame) - also   *)
+(* when the stream ended while lal was still probing it (fewer than ProbeMax messages of one track): *)
+(* what was published is handed out when the input leaves                                           *)
 ProbeDone(h) == (h.nv > 0 /\ h.na > 0) \/ h.step >= ProbeMax
 FirstKeyStep(h) == IF \E j \in 1..Len(h.pubV) : h.pubV[j].key
                    THEN h.pubV[CHOOSE j \in 1..Len(h.pubV) : h.pubV[j].key /\ \A i \in 1..(j-1) : ~h.pubV[i].key].step
                    ELSE 0
 StartsInTime(h, c) ==
-  ProbeDone(h) =>
-    /\ FirstKeyStep(h) > 0 => c.start > 0 /\ c.start <= FirstKeyStep(h)
-    /\ (h.nv = 0 /\ TsAudio /\ h.pubA # <<>>) => c.start > 0 /\ c.start <= h.pubA[1].step
+  /\ FirstKeyStep(h) > 0 => c.start > 0 /\ c.start <= FirstKeyStep(h)
+  /\ (h.nv = 0 /\ TsAudio /\ h.pubA # <<>>) => c.start > 0 /\ c.start <= h.pubA[1].step
 
 ---------------------------------------------------------------------------
 (* Acceptor, RTP side (one session: SDP, then the packets of both tracks).                       *)
-RtpInit == [ok |-> TRUE, sdp |-> FALSE, vrate |-> 0, arate |-> 0, vcur |-> 0, acur |-> 0, vseq |-> -1, aseq |-> -1, start |-> 0]
+RtpInit == [ok |-> TRUE, sdp |-> FALSE, vrate |-> 0, arate |-> 0, vcur |-> 0, acur |-> 0, vseq |-> -1, aseq |-> -1, start |-> 0,
+            gate |-> FALSE,    \* a subscriber of the Group (C02: described as the stream is now, starts at a key frame)
+            play |-> -1]       \* messages published when its PLAY was answered (-1: not playing)
 
 RtpUnitIs(u, p) == IF IsPsU(p) THEN u.k = "ps" /\ u.t = p.t /\ u.v = p.v /\ u.ok
                    ELSE u.k = "nal" /\ UnitIs(u, p)
@@ -234,6 +242,7 @@ FindVR(h, g) == IF \E j \in 1..Len(h.pubVR) : RtpFrameTail(g, h.pubVR[j])
                 THEN CHOOSE j \in 1..Len(h.pubVR) : RtpFrameTail(g, h.pubVR[j]) /\ \A i \in 1..(j-1) : ~RtpFrameTail(g, h.pubVR[i])
                 ELSE 0
 
+VRKey(p) == \E i \in 1..Len(p.units) : p.units[i].t = "idr"
 SdpOk(h, s, late) ==
   LET ms == s.media
       vm == SelectSeq(ms, LAMBDA x : x.kind = "video")
@@ -252,8 +261,23 @@ SdpOk(h, s, late) ==
             [] OTHER -> FALSE
      /\ Len(vm) + Len(am) >= 1
 
+(* C02 for a subscriber of the Group, whenever it joins: the description carries the video parameter   *)
+(* sets of the sequence header in force now (not those of the time lal analysed the stream).           *)
+VideoCurrent(h, s) == LET vm == SelectSeq(s.media, LAMBDA x : x.kind = "video")
+                      IN Len(vm) = 1 => \A t \in PsTypes : vm[1][t] = h.vshv
+SdpCur(h, s) == SdpOk(h, s, TRUE) /\ VideoCurrent(h, s)
+(* the remuxer may describe the stream again after a sequence-header change: same tracks, same clock   *)
+(* rates, the parameter sets in force now                                                              *)
+SdpRe(h, r, s) ==
+  LET vm == SelectSeq(s.media, LAMBDA x : x.kind = "video")
+      am == SelectSeq(s.media, LAMBDA x : x.kind = "audio")
+  IN /\ SdpOk(h, s, TRUE) /\ VideoCurrent(h, s)
+     /\ Len(vm) = (IF r.vrate > 0 THEN 1 ELSE 0) /\ Len(am) = (IF r.arate > 0 THEN 1 ELSE 0)
+     /\ Len(am) = 1 => am[1].rate = r.arate
+
 RtpSdp(h, r, s, late) ==
-  IF ~r.sdp /\ SdpOk(h, s, late)
+  IF r.sdp /\ ~r.gate /\ ~late /\ SdpRe(h, r, s) THEN r
+  ELSE IF ~r.sdp /\ (IF r.gate THEN SdpCur(h, s) ELSE SdpOk(h, s, late))
   THEN LET vm == SelectSeq(s.media, LAMBDA x : x.kind = "video")
            am == SelectSeq(s.media, LAMBDA x : x.kind = "audio")
        IN [r EXCEPT !.sdp = TRUE, !.vrate = IF vm = <<>> THEN 0 ELSE vm[1].rate, !.arate = IF am = <<>> THEN 0 ELSE am[1].rate]
@@ -266,6 +290,7 @@ AcceptRtpFrame(h, r, g) ==
     IF j = 0 \/ j > Len(h.pubVR) THEN [r EXCEPT !.ok = FALSE]
     ELSE LET p == h.pubVR[j] IN
          IF /\ (IF r.vcur = 0 THEN RtpFrameTail(g, p) ELSE RtpFrameIs(g, p))
+            /\ (r.gate /\ r.vcur = 0) => VRKey(p)                                      \* KeyFirst
             /\ (r.vseq < 0 \/ g.seq = r.vseq)
             /\ r.vrate > 0 /\ RtpTimeOk(g.ts, p.ts, r.vrate)
          THEN [r EXCEPT !.vcur = j, !.vseq = (g.seq + g.np) % 65536, !.start = StartOf(r, p.step)]
@@ -284,12 +309,24 @@ RECURSIVE AcceptRtp(_, _, _, _)
 AcceptRtp(h, r, gs, i) == IF i > Len(gs) \/ ~r.ok THEN r ELSE AcceptRtp(h, AcceptRtpFrame(h, r, gs[i]), gs, i + 1)
 RECURSIVE AcceptSdps(_, _, _, _, _)
 AcceptSdps(h, r, ss, i, late) == IF i > Len(ss) \/ ~r.ok THEN r ELSE AcceptSdps(h, RtpSdp(h, r, ss[i], late), ss, i + 1, late)
-RtpCons == {"ra", "rg"}     \* ra: remux.Rtmp2RtspRemuxer alone; rg: RTSP subscriber (interleaved) of the Group
+RtpCons == {"ra", "rg", "rh"}   \* ra: remux.Rtmp2RtspRemuxer alone; rg, rh: RTSP subscribers (interleaved) of the Group
+RtpGated == {"rg", "rh"}
 
 RtpEndOk(h, r) ==
   r.start > 0 =>
     /\ IF r.vcur > 0 THEN r.vcur = Len(h.pubVR) ELSE \A j \in 1..Len(h.pubVR) : h.pubVR[j].step <= r.start
     /\ IF r.acur > 0 THEN r.acur = Len(h.pubA) ELSE \A j \in 1..Len(h.pubA) : h.pubA[j].step <= r.start
+
+(* C02 for a subscriber of the Group: once its PLAY is answered it starts no later than the next key  *)
+(* frame - or, described without video, the next audio frame (never held back waiting for a key frame) *)
+RtspStartsInTime(h, r) ==
+  r.play >= 0 =>
+    LET ks == {h.pubVR[j].step : j \in {i \in 1..Len(h.pubVR) : VRKey(h.pubVR[i]) /\ h.pubVR[i].step > r.play}}
+        as == {h.pubA[j].step : j \in {i \in 1..Len(h.pubA) : h.pubA[i].step > r.play}}
+        first(S) == CHOOSE x \in S : \A y \in S : x <= y
+    IN /\ (r.vrate > 0 /\ ks # {}) => r.start > 0 /\ r.start <= first(ks)
+       /\ (r.vrate = 0 /\ r.arate > 0 /\ as # {}) => r.start > 0 /\ r.start <= first(as)
+RtpPlayed(h, r, o) == IF "played" \in DOMAIN o /\ o.played /\ r.play < 0 THEN [r EXCEPT !.play = h.step] ELSE r
 
 (* the consumer of the remuxer itself is there from the start: once the session description is out *)
 (* it has everything from the first frame of each described track                                  *)
@@ -398,6 +435,11 @@ RmPush(r, m) ==
           THEN RmPopAll([r EXCEPT !.done = TRUE, !.q = <<>>, !.vseen = vs, !.aseen = as, !.patpmt = TRUE], q2, 1)
           ELSE [r EXCEPT !.q = q2, !.vseen = vs, !.aseen = as]
 
+(* Rtmp2MpegtsRemuxer.Dispose: what the probe queue still holds is remuxed (PAT/PMT for the tracks *)
+(* seen so far), then the pending audio is flushed                                                  *)
+RmDispose(r) == RmFlushAudio(IF ~r.done /\ r.q # <<>>
+                             THEN RmPopAll([r EXCEPT !.done = TRUE, !.q = <<>>, !.patpmt = TRUE], r.q, 1) ELSE r)
+
 (* Group.feedTsPackets for one frame; del = frames handed to each consumer in this step           *)
 RingFlat(ring) == IF ring = <<>> THEN <<>> ELSE
                   LET RECURSIVE F(_) F(i) == IF i > Len(ring) THEN <<>> ELSE ring[i] \o F(i + 1) IN F(1)
@@ -419,4 +461,95 @@ RECURSIVE FeedAll(_, _, _)
 FeedAll(r, del, i) == IF i > Len(r.out) THEN [r |-> [r EXCEPT !.out = <<>>], del |-> del]
                       ELSE LET y == FeedTs(r, del, r.out[i]) IN FeedAll(y.r, y.del, i + 1)
 NoDel == [c \in {"t1", "t2"} |-> <<>>]
+
+---------------------------------------------------------------------------
+(* Reference model of lal, RTSP side: remux.Rtmp2RtspRemuxer (analyse stage of ProbeMax messages,    *)
+(* session description, described again when the video sequence header changes, one RTP frame per    *)
+(* message) and Group.feedRtpPacket (a subscriber that is playing and still waits is admitted at the  *)
+(* first parameter set / IDR unit of a key-frame message; without video in the description at once). *)
+(* Subscriber stages: no -> desc (DESCRIBE sent) -> sdp (answered) -> play.                            *)
+(* mut selects a model-level mutant the design check must catch ("none": the reference): "stale" the *)
+(* description keeps the first sequence header, "anyps" a parameter set of any message opens the gate, *)
+(* "stage" a key frame that passes between DESCRIBE and PLAY ends the wait, "hold" a subscriber of a  *)
+(* stream without video waits for a key frame all the same.                                           *)
+RrInit == [done |-> FALSE, cache |-> <<>>, sps |-> 0, asc |-> 0, ascf |-> <<>>, apt |-> FALSE,
+           sdp |-> <<>>,                      \* <<>> or << session description >>
+           vseq |-> 0, aseq |-> 0,
+           out |-> <<>>,                      \* frames produced in this step: [g, key]
+           sub |-> [c \in RtpGated |-> [st |-> "no", wait |-> TRUE]]]
+
+RrARate(r) == CASE ac = "aac" -> AscFreq(r.ascf[2]) [] ac = "opus" -> 48000 [] OTHER -> 8000
+RrSdp(r) ==
+  [media |->
+    (IF r.sps > 0
+     THEN << [kind |-> "video", enc |-> IF vc = "hevc" THEN "H265" ELSE "H264", rate |-> 90000, pt |-> 96,
+              sps |-> r.sps, pps |-> r.sps, vps |-> IF vc = "hevc" THEN r.sps ELSE 0, asc |-> 0] >> ELSE <<>>) \o
+    (IF r.asc > 0 \/ r.apt
+     THEN << [kind |-> "audio", rate |-> RrARate(r), sps |-> 0, pps |-> 0, vps |-> 0, asc |-> r.asc,
+              enc |-> CASE ac = "aac" -> "MPEG4-GENERIC" [] ac = "opus" -> "OPUS" [] ac = "g711a" -> "PCMA" [] OTHER -> "PCMU",
+              pt |-> CASE ac = "g711a" -> 8 [] ac = "g711u" -> 0 [] OTHER -> 97] >> ELSE <<>>)]
+RrHasVideo(r) == r.sdp # <<>> /\ r.sps > 0 /\ \E i \in 1..Len(r.sdp[1].media) : r.sdp[1].media[i].kind = "video"
+
+RrUnit(u) == IF IsPsU(u) THEN [k |-> "ps", t |-> u.t, v |-> u.v, id |-> 0, off |-> 0, n |-> 0, ok |-> TRUE]
+             ELSE [k |-> "nal", t |-> u.t, v |-> 0, id |-> u.id, off |-> 0, n |-> u.n, ok |-> TRUE]
+RrG(tr, seq, ts, units) == [tr |-> tr, wf |-> TRUE, seqOk |-> TRUE, mk |-> TRUE, seq |-> seq, np |-> 1, ts |-> ts, units |-> units]
+\* remux(): one message -> at most one frame (no packer for a track that is not known)
+RrRemux(r, m) ==
+  IF m.k = "v" THEN
+    LET us == SelectSeq(m.nals, LAMBDA u : u.t # "aud") IN
+    IF r.sps = 0 \/ us = <<>> THEN r
+    ELSE [r EXCEPT !.vseq = (@ + 1) % 65536,
+                   !.out = Append(@, [key |-> m.key,
+                                      g |-> RrG("v", r.vseq, RtpExpect(T3OfInt(m.tm), 90000), [i \in 1..Len(us) |-> RrUnit(us[i])])])]
+  ELSE IF m.k = "a" /\ (r.asc > 0 \/ r.apt) THEN
+    [r EXCEPT !.aseq = (@ + 1) % 65536,
+              !.out = Append(@, [key |-> FALSE,
+                                 g |-> RrG("a", r.aseq, RtpExpect(T3OfInt(m.tm), RrARate(r)),
+                                           << [k |-> "raw", t |-> "", v |-> 0, id |-> m.id, off |-> 0, n |-> m.n, ok |-> TRUE] >>)])]
+  ELSE r
+RECURSIVE RrRemuxAll(_, _, _)
+RrRemuxAll(r, q, i) == IF i > Len(q) THEN r ELSE RrRemuxAll(RrRemux(r, q[i]), q, i + 1)
+
+RrPush(r, m, mut) ==
+  IF r.done THEN
+    IF m.k = "vsh" THEN (IF r.sps > 0 /\ m.ver # r.sps /\ mut # "stale" THEN LET r1 == [r EXCEPT !.sps = m.ver] IN [r1 EXCEPT !.sdp = << RrSdp(r1) >>] ELSE r)
+    ELSE IF m.k = "ash" THEN r
+    ELSE RrRemux(r, m)
+  ELSE LET r1 == CASE m.k = "vsh" -> [r EXCEPT !.sps = m.ver]
+                   [] m.k = "ash" -> [r EXCEPT !.asc = m.ver, !.ascf = m.asc]
+                   [] m.k = "a" -> [r EXCEPT !.apt = @ \/ ac # "aac", !.cache = Append(@, m)]
+                   [] OTHER -> [r EXCEPT !.cache = Append(@, m)]
+       IN IF (r1.sps > 0 /\ (r1.asc > 0 \/ r1.apt)) \/ Len(r1.cache) >= ProbeMax
+          THEN RrRemuxAll([r1 EXCEPT !.done = TRUE, !.cache = <<>>, !.sdp = << RrSdp(r1) >>], r1.cache, 1)
+          ELSE r1
+
+\* Group.feedRtpPacket for one frame; del = what each subscriber is handed in this step
+RrBoundaryAt(x, mut) == IF x.g.tr = "v" /\ (x.key \/ mut = "anyps") /\ \E i \in 1..Len(x.g.units) : x.g.units[i].k = "ps" \/ x.g.units[i].t = "idr"
+                   THEN CHOOSE i \in 1..Len(x.g.units) : /\ (x.g.units[i].k = "ps" \/ x.g.units[i].t = "idr")
+                                                          /\ \A j \in 1..(i-1) : ~(x.g.units[j].k = "ps" \/ x.g.units[j].t = "idr")
+                   ELSE 0
+RrFeed(r, del, x, mut) ==
+  LET one(c) ==
+        LET s == r.sub[c]
+            i0 == IF RrHasVideo(r) \/ mut = "hold" THEN RrBoundaryAt(x, mut) ELSE 1
+        IN IF s.st # "play" THEN [sub |-> IF mut = "stage" /\ s.st = "sdp" /\ i0 > 0 THEN [s EXCEPT !.wait = FALSE] ELSE s, del |-> del[c]]
+           ELSE IF ~s.wait THEN [sub |-> s, del |-> Append(del[c], x.g)]
+           ELSE IF i0 = 0 THEN [sub |-> s, del |-> del[c]]
+           ELSE [sub |-> [s EXCEPT !.wait = FALSE],
+                 del |-> Append(del[c], [x.g EXCEPT !.units = SubSeq(x.g.units, i0, Len(x.g.units))])]
+  IN [r |-> [r EXCEPT !.sub = [c \in DOMAIN r.sub |-> one(c).sub]], del |-> [c \in DOMAIN r.sub |-> one(c).del]]
+RECURSIVE RrFeedAll(_, _, _, _)
+RrFeedAll(r, del, i, mut) == IF i > Len(r.out) THEN [r |-> [r EXCEPT !.out = <<>>], del |-> del]
+                             ELSE LET y == RrFeed(r, del, r.out[i], mut) IN RrFeedAll(y.r, y.del, i + 1, mut)
+RrNoDel == [c \in RtpGated |-> <<>>]
+\* one published message: the description (if it came into being now) goes to the subscribers whose DESCRIBE is
+\* pending - they were not playing when the frames of this step went by
+RrStep(r, m, mut) ==
+  LET r1 == RrPush(r, m, mut)
+      y == RrFeedAll(r1, RrNoDel, 1, mut)
+      fresh == r.sdp = <<>> /\ r1.sdp # <<>>
+  IN [r |-> [y.r EXCEPT !.sub = [c \in DOMAIN y.r.sub |->
+                                   IF fresh /\ y.r.sub[c].st = "desc" THEN [y.r.sub[c] EXCEPT !.st = "sdp"] ELSE y.r.sub[c]]],
+      del |-> y.del,
+      sdp |-> [c \in DOMAIN r.sub |-> IF fresh /\ r.sub[c].st = "desc" THEN r1.sdp ELSE <<>>]]
 =============================================================================
